@@ -173,7 +173,23 @@ func New(uni []Node, tag string) bfs.System {
 	g := toProto(s.hdr["G"])
 	cs := &ethclient.ClientState{Header: *g, ChainId: 4, ContractAddress: common.HexToAddress("0x20000001").Bytes(), TrustingPeriod: 10_000_000, TimeDelay: 0, BlockDelay: 1}
 	cons := &ethclient.ConsensusState{Timestamp: g.Time, Height: g.Height, Root: g.Root}
-	if err := s.h.C.App.XIBCKeeper.ClientKeeper.CreateClient(s.ctx, Client, cs, cons); err != nil {
+	k := s.h.C.App.XIBCKeeper.ClientKeeper
+	if strings.Contains(tag, "via-upgrade") {
+		// an older client (an unrelated header ten blocks below) is brought to G by the real governance upgrade
+		old := gethHeader(nil, "OLD", "", "")
+		old.Number = big.NewInt(90)
+		old.Time = baseTime - 120
+		o := toProto(old)
+		ocs := &ethclient.ClientState{Header: *o, ChainId: 4, ContractAddress: common.HexToAddress("0x20000001").Bytes(), TrustingPeriod: 10_000_000, TimeDelay: 0, BlockDelay: 1}
+		if err := k.CreateClient(s.ctx, Client, ocs, &ethclient.ConsensusState{Timestamp: o.Time, Height: o.Height, Root: o.Root}); err != nil {
+			panic(err)
+		}
+		if err := k.UpgradeClient(s.ctx, Client, cs, cons); err != nil {
+			panic(err)
+		}
+		return s
+	}
+	if err := k.CreateClient(s.ctx, Client, cs, cons); err != nil {
 		panic(err)
 	}
 	return s
